@@ -259,6 +259,159 @@ theorem keys_labelled : ∀ (ks : List Nat) (n N : Nat) (s : State) (zs : List S
             · exact keyDone_mono li1.w.solved kn2 km2 kd1
             · exact kd2 k' hk'
 
+/-- a labelling goal reaches its results by labelling equalities -/
+def ReachOK (g : G) : Prop :=
+  (∀ N s zs, LInv s → s.panic = none → evalRef dfs N g s = some zs → (∀ t ∈ zs, t.panic = none) →
+    ∀ t ∈ zs, Reach ord s t) ∧
+  (∀ N s zs, s.panic ≠ none → evalRef dfs N g s = some zs → s ∈ zs) ∧
+  g.isFail = false
+
+omit ho in
+theorem reachOK_succeed : ReachOK (ord := ord) dfs (.succeed : G) := by
+  refine ⟨fun N s zs _ _ h _ t ht => ?_, fun N s zs _ h => ?_, rfl⟩
+  · cases N with
+    | zero => simp [evalRef] at h
+    | succ N =>
+      simp only [evalRef, Option.some.injEq] at h; subst h
+      simp only [List.mem_singleton] at ht; subst ht
+      exact Reach.refl ord _
+  · cases N with
+    | zero => simp [evalRef] at h
+    | succ N => simp only [evalRef, Option.some.injEq] at h; subst h; exact List.mem_singleton.2 rfl
+
+theorem reachOK_conj {g1 g2 : G} (h1 : ReachOK (ord := ord) dfs g1) (h2 : ReachOK (ord := ord) dfs g2) :
+    ReachOK (ord := ord) dfs (.conj g1 g2) := by
+  refine ⟨fun N s zs hi hp h hall t ht => ?_, fun N s zs hp h => ?_, rfl⟩
+  · cases N with
+    | zero => simp [evalRef] at h
+    | succ N =>
+      simp only [evalRef] at h
+      cases hx : evalRef dfs N g1 s with
+      | none => rw [hx] at h; simp at h
+      | some xs =>
+        rw [hx] at h
+        simp only at h
+        have hxs : ∀ t ∈ xs, t.panic = none := fun t ht => by
+          cases hpt : t.panic with
+          | none => rfl
+          | some site =>
+            obtain ⟨ys, e⟩ := flatMapM_some_of_mem h t ht
+            have : t ∈ ys := h2.2.1 N t ys (by rw [hpt]; simp) e
+            have := hall t ((flatMapM_mem h t).2 ⟨t, ht, ys, e, this⟩)
+            rw [hpt] at this; cases this
+        obtain ⟨t1, ht1, ys, e, hty⟩ := (flatMapM_mem h t).1 ht
+        have r1 := h1.1 N s xs hi hp hx hxs t1 ht1
+        have li1 := (reach_inv ho hi r1).1
+        exact r1.trans (h2.1 N t1 ys li1 (hxs t1 ht1) e
+          (fun y hy => hall y ((flatMapM_mem h y).2 ⟨t1, ht1, ys, e, hy⟩)) t hty)
+  · cases N with
+    | zero => simp [evalRef] at h
+    | succ N =>
+      simp only [evalRef] at h
+      cases hx : evalRef dfs N g1 s with
+      | none => rw [hx] at h; simp at h
+      | some xs =>
+        rw [hx] at h
+        simp only at h
+        have hs1 := h1.2.1 N s xs hp hx
+        obtain ⟨ys, e⟩ := flatMapM_some_of_mem h s hs1
+        exact (flatMapM_mem h s).2 ⟨s, hs1, ys, e, h2.2.1 N s ys hp e⟩
+
+theorem reachOK_mkConj {g1 g2 : G} (h1 : ReachOK (ord := ord) dfs g1) (h2 : ReachOK (ord := ord) dfs g2) :
+    ReachOK (ord := ord) dfs (mkConj g1 g2) := by
+  unfold mkConj
+  split
+  · exact reachOK_succeed dfs
+  · split
+    · rename_i hf
+      rw [h1.2.2, h2.2.2] at hf
+      simp at hf
+    · exact reachOK_conj ho dfs h1 h2
+
+theorem reachOK_conjOfList : ∀ gs : List G, (∀ g ∈ gs, ReachOK (ord := ord) dfs g) → ReachOK (ord := ord) dfs (Goal.conjOfList gs)
+  | [], _ => reachOK_succeed dfs
+  | g :: gs, h => reachOK_mkConj ho dfs (h g (List.mem_cons_self ..))
+      (reachOK_conjOfList gs fun x hx => h x (List.mem_cons_of_mem _ hx))
+
+/-- `force_ans` on ANY term: every delivered state is reached from the start state by labelling equalities -/
+theorem forceAns_reachOK : ∀ (n : Nat) (t : Term), ReachOK (ord := ord) dfs (forceAns ord n t)
+  | 0, t => by
+    refine ⟨fun N s zs _ hp h hall => ?_, fun N s zs hp h => ?_, rfl⟩
+    · cases N with
+      | zero => simp [evalRef] at h
+      | succ N =>
+        simp only [forceAns, evalRef, liftRes, hp, Option.isSome_none, Bool.false_eq_true, if_false,
+          Option.toList_some, Option.some.injEq] at h
+        subst h
+        have := hall _ (List.mem_singleton.2 rfl)
+        simp at this
+    · cases N with
+      | zero => simp [evalRef] at h
+      | succ N =>
+        have hps : s.panic.isSome = true := by cases hq : s.panic with | none => exact absurd hq hp | some _ => rfl
+        simp only [forceAns, evalRef, liftRes, hps, if_true, Option.toList_some, Option.some.injEq] at h
+        subst h
+        exact List.mem_singleton.2 rfl
+  | n + 1, t => by
+    have ihn := forceAns_reachOK n
+    refine ⟨fun N s zs hi hp h hall => ?_, fun N s zs hp h => ?_, rfl⟩
+    · cases N with
+      | zero => simp [evalRef] at h
+      | succ N =>
+        simp only [forceAns, evalRef, id, hp, Option.isSome_none, Bool.false_eq_true, if_false] at h
+        split at h
+        · rename_i xv hw
+          split at h
+          · rename_i d hd
+            let f : Int → State → Option State := fun v => liftRes fun st => st.unify ord (Term.num v) (.var xv)
+            have hm : (d.iter.map fun v => eqG ord (Term.num v) (.var xv)) = (d.iter.map f).map fun g => (.atom g : G) := by
+              simp only [List.map_map]; rfl
+            rw [hm] at h
+            have hz := evalRef_alt_atoms_eq dfs (d.iter.map f) N s zs h
+            rw [List.filterMap_map] at hz
+            intro t' ht'
+            have hpt := hall t' ht'
+            rw [hz] at ht'
+            obtain ⟨v, _, hv⟩ := List.mem_filterMap.1 ht'
+            simp only [Function.comp, f, liftRes, hp, Option.isSome_none, Bool.false_eq_true, if_false] at hv
+            cases hu : s.unify ord (Term.num v) (.var xv) with
+            | ok s' =>
+              rw [hu] at hv
+              simp only [Option.some.injEq] at hv
+              subst hv
+              exact ⟨[(v, xv)], by simp [labelAtoms, postAllF, postF, hu, Res.bind]⟩
+            | fail => rw [hu] at hv; simp at hv
+            | fuel => rw [hu] at hv; simp only [Option.some.injEq] at hv; subst hv; simp at hpt
+            | panic site => rw [hu] at hv; simp only [Option.some.injEq] at hv; subst hv; simp at hpt
+          · exact (reachOK_succeed dfs).1 N s zs hi hp h hall
+        · rename_i hd' tl hw
+          exact (reachOK_conjOfList ho dfs [forceAns ord n hd', forceAns ord n tl] (fun g hg => by
+            simp only [List.mem_cons, List.not_mem_nil, or_false] at hg
+            rcases hg with rfl | rfl
+            · exact ihn hd'
+            · exact ihn tl)).1 N s zs hi hp h hall
+        · rename_i tag args hw
+          exact (reachOK_conjOfList ho dfs ((compFields args).map (forceAns ord n)) (fun g hg => by
+            obtain ⟨x, _, rfl⟩ := List.mem_map.1 hg
+            exact ihn x)).1 N s zs hi hp h hall
+        · exact (reachOK_succeed dfs).1 N s zs hi hp h hall
+    · cases N with
+      | zero => simp [evalRef] at h
+      | succ N =>
+        have hps : s.panic.isSome = true := by cases hq : s.panic with | none => exact absurd hq hp | some _ => rfl
+        simp only [forceAns, evalRef, id, hps, if_true] at h
+        exact (reachOK_succeed (ord := ord) dfs).2.1 N s zs hp h
+
+/-- THE BLOCKS: labelling ANY term (the query term) from a state with the labelling invariants delivers states with the
+    labelling invariants, whose propagators' operands are still numbers or variables with domains -/
+theorem blocks_inv (n N : Nat) (x : Term) (s : State) (xs : List State) (hi : LInv s) (hp : s.panic = none)
+    (hops : OpsOK s) (h : evalRef dfs N (forceAns ord n x) s = some xs) (hall : ∀ t ∈ xs, t.panic = none) :
+    ∀ c ∈ xs, LInv c ∧ OpsOK c ∧ Reach ord s c := by
+  intro c hc
+  have r := (forceAns_reachOK ho dfs n x).1 N s xs hi hp h hall c hc
+  obtain ⟨li, kn, _, su⟩ := reach_inv ho hi r
+  exact ⟨li, hops.keep hi.w.solved kn su, r⟩
+
 /-- every state reached by posting atoms (no CLP(Z)) satisfies the labelling invariants -/
 theorem linv_of_atoms (n : Nat) (as : List FAtom) (hok : ∀ a ∈ as, a.OK) (hnz : ∀ a ∈ as, a.NoZ) (s : State)
     (h : postAllF ord (State.empty n) as = .ok s) : LInv s := by
